@@ -356,7 +356,7 @@ PROPS['C14'] = dict(
                  'decrease through references and slices; seven for-loops with invariants. Unit repeat - contract on src/kanata/key_repeat.rs::handle_repeat_actual: the log of '
                  'OS writes grows by at most one (key, Repeat) entry, the key is repeat_pick(order, default_layer, key_outputs, event.code, cur_keys\', unshifted, unmodded), '
                  'which is proved active (lemma_last_active_is_active); three loops (held layers; outputs of a held layer, reversed; outputs of the base layer, reversed) with '
-                 'invariants "no earlier layer / later-listed output was active"; early returns carry the postcondition. Unit input - Kanata::handle_input_event, cut whole: an OS repeat event goes to handle_repeat and nowhere else (no layout event is queued for it, nothing is recorded), so the at-most-one Repeat of handle_repeat_actual is all a repeat event can produce; handle_repeat itself (calls handle_repeat_actual, then clears cur_keys) is a stub there.'),
+                 'invariants "no earlier layer / later-listed output was active"; early returns carry the postcondition. Unit input - Kanata::handle_input_event, cut whole: an OS repeat event goes to handle_repeat and nowhere else (no layout event is queued for it, nothing is recorded), so the at-most-one Repeat of handle_repeat_actual is all a repeat event can produce; handle_repeat itself is a stub there and is cut whole in unit repeat: it calls handle_repeat_actual (checked against that contract), then empties the scratch list of held keys - at most one event is written, and only a Repeat.'),
     verus=[dict(unit='keyout'), dict(unit='repeat'), dict(unit='input')],
     kani=[],
     assumptions=[
